@@ -51,6 +51,19 @@ def dtype_mix(rt):
             (T("loc all rows + column list"), df.loc[:, ["s", "i"]]), (T("loc open slice + column list"), df.loc[5:, ["c", "g"]]), (T("loc slice + column list + elemwise"), df.loc[1:10, ["i", "g"]] + 1),
             (T("loc boolean series"), df.loc[df.i > 3]), (T("loc boolean + columns"), df.loc[df.i > 3, ["s"]]),
         ]
+        # Series with "falsy" or positional-looking names (0, 1, "", None) through operations that detour over a frame
+        # (alignment shuffles of operands with unknown divisions, shuffles, drop_duplicates, value_counts, reset_index)
+        num = pd.DataFrame(np.arange(24).reshape(12, 2))            # columns 0 and 1
+        a = rt.dx.from_pandas(num, npartitions=npart).clear_divisions()
+        b = rt.dx.from_pandas(num, npartitions=max(1, npart - 1)).clear_divisions()
+        for nm, ser, other in ((0, a[0], b[0]), (1, a[1], b[1]), ("", a[0].rename(""), b[1].rename("")), (None, a[0].rename(None), b[1].rename(None)), ("x", a[0].rename("x"), b[0].rename("y"))):
+            out += [
+                (T("series named %r + unaligned series" % (nm,)), ser + other), (T("series named %r filtered by unaligned mask" % (nm,)), ser[other > 6]),
+                (T("series named %r where unaligned" % (nm,)), ser.where(other > 6)), (T("series named %r shuffle on index" % (nm,)), ser.shuffle(on_index=True)),
+                (T("series named %r drop_duplicates" % (nm,)), ser.drop_duplicates()), (T("series named %r value_counts" % (nm,)), ser.value_counts()),
+                (T("series named %r unique" % (nm,)), ser.unique()), (T("series named %r reset_index" % (nm,)), ser.reset_index()), (T("series named %r to_frame" % (nm,)), ser.to_frame()),
+                (T("series named %r cumsum" % (nm,)), ser.cumsum()), (T("series named %r nlargest" % (nm,)), ser.nlargest(3)), (T("series named %r repartition" % (nm,)), ser.repartition(npartitions=2)),
+            ]
     return out
 
 
